@@ -13,7 +13,7 @@ from __future__ import annotations
 import ast
 
 from ..index import AnchorMissing, Unrecognised
-from ..astutil import u, body_walk, local_env, func_calls, walk_local, single_return_expr
+from ..astutil import linear_body, u, body_walk, local_env, func_calls, walk_local, single_return_expr
 from .. import sym, schema, memo
 
 EXPLANATION = ("Static analysis of the table layer: the field types of all bnpdataclasses in the package are enumerated and compared with the branches of the "
@@ -29,7 +29,7 @@ ANCHORED = [BD, "bionumpy.bnpdataclass.bnpdataclassfunction", "bionumpy.bnpdatac
 
 def _conversion_branches(ctx):
     f = ctx.index.func(BD, "bnpdataclass.<locals>.NewClass._implicit_format_conversion")
-    loops = [n for n in f.node.body if isinstance(n, ast.For)]
+    loops = [n for n in linear_body(f.node) if isinstance(n, ast.For)]
     ctx.need(len(loops) == 1, "_implicit_format_conversion: loop over the fields not found")
     chain = [s for s in loops[0].body if isinstance(s, ast.If)]
     ctx.need(len(chain) == 1, "_implicit_format_conversion: type dispatch chain not found")
@@ -113,7 +113,7 @@ def r2_derivations(ctx):
     ix = ctx.index
     af = ix.func(BD, "BNPDataClass.add_fields")
     env = local_env(af.node)
-    rets = [n for n in af.node.body if isinstance(n, ast.Return)]
+    rets = [n for n in linear_body(af.node) if isinstance(n, ast.Return)]
     ok = bool(rets) and sym.canon(rets[-1].value, env) == sym.canon(sym.parse_expr(
         f"self.__class__.extend(tuple(_extract_field_types({af.params[1]}, {af.params[2]}).items()))(**{{**vars(self), **{af.params[1]}}})"))
     ctx.ob(af.where, "add_fields builds a new table of the extended class from all existing columns plus the new ones", ok, u(rets[-1].value) if rets else "", key="C19-R2|add_fields")
@@ -169,7 +169,7 @@ def r2_derivations(ctx):
     ok = sym.canon(single_return_expr(ft.node)) == sym.canon(sym.parse_expr(f"cls(*(list(c) for c in zip(*{ft.params[1]})))"))
     ctx.ob(ft.where, "from_entry_tuples transposes rows into columns in field order and constructs through the converting constructor", ok, "", key="C19-R2|from_entry_tuples")
     tl = ix.func(BD, "BNPDataClass.tolist")
-    rets = [n for n in tl.node.body if isinstance(n, ast.Return)]
+    rets = [n for n in linear_body(tl.node) if isinstance(n, ast.Return)]
     ctx.ob(tl.where, "tolist is the list of toiter", bool(rets) and sym.canon(rets[0].value) == "list(self.toiter())", "", key="C19-R2|tolist")
 
 
@@ -191,7 +191,7 @@ def r3_no_effect_statements(ctx):
     ctx.floor("functions scanned for no-effect comparisons", n, 150)
     ctx.ob("bionumpy", f"{n} functions of the table / array modules contain no comparison used as a statement", True, "")
     si = ix.func("bionumpy.string_array", "StringArray.__setitem__")
-    st = [s for s in si.node.body if not (isinstance(s, ast.Expr) and isinstance(s.value, ast.Constant))]
+    st = [s for s in linear_body(si.node) if not (isinstance(s, ast.Expr) and isinstance(s.value, ast.Constant))]
     ok = len(st) == 1 and isinstance(st[0], ast.Assign) and sym.canon(st[0].targets[0]) == f"self._data[{si.params[1]}]" and sym.canon(st[0].value) == f"self._convert_input({si.params[2]})"
     ctx.ob(si.where, "StringArray item assignment stores the converted value at the index", ok, u(st[0]) if st else "", key="C19-R3|setitem")
     ci = ix.func("bionumpy.string_array", "StringArray._convert_input")
